@@ -39,12 +39,20 @@ def _parse_command_line(cli_args = None):
   return p, args
 
 def _create_override_tuple(key, has_value = True):
-  # TODO: Error handling for malformed options
+  # Malformed items are reported like other errors of the configuration, not as a traceback.
+  label = key
+  expected = "SECTION_NAME:KEY=VALUE" if has_value else "SECTION_NAME:KEY"
+  if not ":" in label.split("=", 1)[0]:
+    raise ConfigurationException("Item '{}' should have the form {}".format(label, expected))
   section,key = _query_actions.split_item_label(key)
   if has_value:
+    if not "=" in key:
+      raise ConfigurationException("Item '{}' should have the form {}".format(label, expected))
     key, value = key.split("=", 1)
   else:
     value = None
+  if not section.strip() or not key.strip():
+    raise ConfigurationException("Item '{}' should have the form {}: section name and key cannot be empty".format(label, expected))
   retval = ConfigParserOverrideTuple(section = section, key = key, value = value)
   return retval
 
